@@ -712,7 +712,7 @@ def do_c20_case(case, scratch):
         for argv in case['commands']:
             before, before_modes = snapshot(root), snapshot_modes(root)
             so = os.path.join(scratch, 'stdout.txt')
-            r = run_forked({'program': 'cli', 'argv': argv, 'cwd': root, 'stdout': so, 'audit': True, 'count': False}, scratch)
+            r = run_forked({'program': 'cli', 'argv': [a.replace('{ROOT}', root) for a in argv], 'cwd': root, 'stdout': so, 'audit': True, 'count': False}, scratch)
             after, after_modes = snapshot(root), snapshot_modes(root)
             aud = []
             for ev in r.get('audit', []):
